@@ -1,8 +1,344 @@
 package main
 
+import (
+	"fmt"
+	"go/ast"
+	"go/token"
+	"go/types"
+	"sort"
+	"strings"
+
+	"golang.org/x/tools/go/packages"
+)
+
 func init() { rules["C04"] = ruleC04 }
 
 func ruleC04(prog *Program, rep *Report) {
-	rep.Explain("C04 decides structural clauses of 'writers emit valid JSON': (1) string escaping is total and exact per byte against RFC 8259 section 7 (G-json); further clauses are listed with their rules. Not covered: that the text parses back to an equal tree, number formatting, pretty layout arithmetic.")
+	rep.Explain("C04 decides structural clauses of 'writers emit valid JSON': (1) string escaping is total and exact per byte against RFC 8259 section 7 (G-json); (2) the in-memory and the streaming entry of each Writer configure the encoder identically (W-parity: their statement lists differ only in statements about the io.Writer, the flush threshold and the result); (3) every object emitter selected under the Sort option sorts the keys before the emitting loop and never emits from a range over the map (W-sort); (4) every slice of the constant indentation strings with a computed bound is preceded by the clamp to the string's length (W-clamp: depth beyond the indentation string). Not covered: that the text parses back to an equal tree, number formatting, retraction safety under mid-stream flush, pretty layout arithmetic.")
 	ruleJSONStringWriter(prog, rep)
+	ruleWriterParity(prog, rep)
+	ruleSortedEmit(prog, rep)
+	ruleClamp(prog, rep)
+}
+
+func mentionsField(n ast.Node, names map[string]bool) bool {
+	found := false
+	ast.Inspect(n, func(k ast.Node) bool {
+		if sel, ok := k.(*ast.SelectorExpr); ok && names[sel.Sel.Name] {
+			found = true
+		}
+		return true
+	})
+	return found
+}
+
+// ruleWriterParity: MustJSON vs MustWrite (oj), MustSEN vs MustWrite (sen).
+func ruleWriterParity(prog *Program, rep *Report) {
+	rep.Rules = append(rep.Rules, "W-parity: the top-level statements of a Writer's in-memory entry (MustJSON / MustSEN) and of its streaming entry (MustWrite) are the same multiset after printing, except for statements that mention the io.Writer field, the WriteLimit option or return the buffer: every formatting option selects the same emitters in both")
+	for _, g := range []struct{ rel, mem, stream string }{{"oj", "MustJSON", "MustWrite"}, {"sen", "MustSEN", "MustWrite"}} {
+		pk := prog.Pkg(g.rel)
+		if pk == nil {
+			rep.Errorf("package %s missing", g.rel)
+			continue
+		}
+		a, _ := prog.FuncDecl(Method(pk, "Writer", g.mem))
+		b, _ := prog.FuncDecl(Method(pk, "Writer", g.stream))
+		if a == nil || b == nil {
+			rep.Errorf("%s.Writer.%s/%s not found", g.rel, g.mem, g.stream)
+			continue
+		}
+		// the io.Writer field: the field assigned from the io.Writer parameter in the streaming entry
+		special := map[string]bool{"WriteLimit": true}
+		info := pk.TypesInfo
+		ast.Inspect(b.Body, func(k ast.Node) bool {
+			if as, ok := k.(*ast.AssignStmt); ok && len(as.Lhs) == 1 && len(as.Rhs) == 1 {
+				if sel, ok := as.Lhs[0].(*ast.SelectorExpr); ok {
+					if o := useObj(info, as.Rhs[0]); o != nil && b.Type.Params != nil {
+						for _, fl := range b.Type.Params.List {
+							for _, n := range fl.Names {
+								if info.Defs[n] == o {
+									if nt, ok := o.Type().(*types.Named); ok && nt.Obj().Name() == "Writer" && nt.Obj().Pkg().Path() == "io" {
+										special[sel.Sel.Name] = true
+									}
+								}
+							}
+						}
+					}
+				}
+			}
+			return true
+		})
+		count := func(fd *ast.FuncDecl) map[string]int {
+			m := map[string]int{}
+			for _, s := range fd.Body.List {
+				if _, isRet := s.(*ast.ReturnStmt); isRet {
+					continue
+				}
+				if mentionsField(s, special) {
+					continue
+				}
+				m[wsRe.ReplaceAllString(printNode(prog.Fset, s), " ")]++
+			}
+			return m
+		}
+		ma, mb := count(a), count(b)
+		key := fmt.Sprintf("%s.Writer.%s=%s", g.rel, g.mem, g.stream)
+		var diffs []string
+		for s, c := range ma {
+			if mb[s] != c {
+				diffs = append(diffs, g.mem+": "+shorten(s))
+			}
+		}
+		for s, c := range mb {
+			if ma[s] != c {
+				diffs = append(diffs, g.stream+": "+shorten(s))
+			}
+		}
+		sort.Strings(diffs)
+		if len(diffs) == 0 {
+			rep.Discharge("W-parity", key, prog.Pos(a.Pos()), fmt.Sprintf("%d configuration statements identical", len(ma)))
+		} else {
+			rep.Violate(Finding{Rule: "W-parity", Key: key, Pos: prog.Pos(b.Pos()), Msg: "the in-memory and the streaming entry configure the encoder differently, so Write does not emit the text of the in-memory call: " + strings.Join(diffs, " | ")})
+		}
+	}
+}
+
+func shorten(s string) string {
+	if len(s) > 90 {
+		return s[:90] + "..."
+	}
+	return s
+}
+
+// ruleSortedEmit: emitters chosen under Sort must sort before emitting.
+func ruleSortedEmit(prog *Program, rep *Report) {
+	rep.Rules = append(rep.Rules, "W-sort: every function assigned to an emitter field in the then-branch of `if <writer>.Sort` (and every function that itself tests <writer>.Sort) calls a sort function on the key slice before the loop that appends to the output, and that loop ranges over the sorted slice, not over the map")
+	n := 0
+	for _, rel := range []string{"oj", "sen"} {
+		pk := prog.Pkg(rel)
+		if pk == nil {
+			continue
+		}
+		info := pk.TypesInfo
+		chosen := map[*types.Func]bool{}
+		for _, f := range pk.Syntax {
+			ast.Inspect(f, func(k ast.Node) bool {
+				is, ok := k.(*ast.IfStmt)
+				if !ok {
+					return true
+				}
+				sel, ok := ast.Unparen(is.Cond).(*ast.SelectorExpr)
+				if !ok || sel.Sel.Name != "Sort" {
+					return true
+				}
+				for _, s := range is.Body.List {
+					if as, ok := s.(*ast.AssignStmt); ok && len(as.Rhs) == 1 {
+						if fn, ok := info.Uses[identOf(as.Rhs[0])].(*types.Func); ok {
+							chosen[fn] = true
+						}
+					}
+				}
+				return true
+			})
+		}
+		var fns []*types.Func
+		for fn := range chosen {
+			fns = append(fns, fn)
+		}
+		sort.Slice(fns, func(i, j int) bool { return fns[i].Name() < fns[j].Name() })
+		for _, fn := range fns {
+			fd, _ := prog.FuncDecl(fn)
+			if fd == nil {
+				continue
+			}
+			n++
+			key := rel + "." + fn.Name() + ":sorted"
+			var sortPos token.Pos
+			var sorted types.Object
+			ast.Inspect(fd.Body, func(k ast.Node) bool {
+				c, ok := k.(*ast.CallExpr)
+				if !ok || len(c.Args) == 0 {
+					return true
+				}
+				if sel, ok := c.Fun.(*ast.SelectorExpr); ok {
+					if f, ok := info.Uses[sel.Sel].(*types.Func); ok && f.Pkg() != nil && f.Pkg().Path() == "sort" && !sortPos.IsValid() {
+						sortPos = c.Pos()
+						sorted = useObj(info, c.Args[0])
+					}
+				}
+				return true
+			})
+			bad := ""
+			if !sortPos.IsValid() {
+				bad = "never sorts the keys"
+			} else {
+				emitted := false
+				ast.Inspect(fd.Body, func(k ast.Node) bool {
+					rs, ok := k.(*ast.RangeStmt)
+					if !ok {
+						return true
+					}
+					emits := false
+					ast.Inspect(rs.Body, func(q ast.Node) bool {
+						if c, ok := q.(*ast.CallExpr); ok {
+							if id, ok := c.Fun.(*ast.Ident); ok && id.Name == "append" && len(c.Args) > 0 {
+								if sel, ok := c.Args[0].(*ast.SelectorExpr); ok && sel.Sel.Name == "buf" {
+									emits = true
+								}
+							}
+						}
+						return true
+					})
+					if !emits {
+						return true
+					}
+					if _, isMap := info.TypeOf(rs.X).Underlying().(*types.Map); isMap {
+						bad = "emits from a range over the map (iteration order)"
+					} else if rs.Pos() < sortPos {
+						bad = "emits before the keys are sorted"
+					} else if useObj(info, rs.X) == sorted {
+						emitted = true
+					}
+					return true
+				})
+				if bad == "" && !emitted {
+					bad = "does not emit from the slice it sorted"
+				}
+			}
+			if bad != "" {
+				rep.Violate(Finding{Rule: "W-sort", Key: key, Pos: prog.Pos(fd.Pos()), Msg: "the emitter selected by the Sort option " + bad + ": with Sort the text is not deterministic / not in ascending key order"})
+			} else {
+				rep.Discharge("W-sort", key, prog.Pos(fd.Pos()), "sorts the keys and emits from the sorted slice")
+			}
+		}
+	}
+	if n < 4 {
+		rep.Errorf("W-sort found %d emitters selected under Sort (floor 4)", n)
+	}
+}
+
+// ruleClamp: computed slices of the indentation constants are clamped.
+func ruleClamp(prog *Program, rep *Report) {
+	rep.Rules = append(rep.Rules, "W-clamp: every slice S[lo:x] of a package-level string (the indentation strings) whose upper bound x is a variable is preceded in the same block, after the last assignment of x, by `if len(S) < x { x = len(S) }` (or the mirrored comparison): nesting deeper than the indentation string must not slice out of range")
+	n := 0
+	for _, rel := range []string{"oj", "sen", "pretty"} {
+		pk := prog.Pkg(rel)
+		if pk == nil {
+			continue
+		}
+		n += clampIn(prog, pk, rel, rep)
+	}
+	if n < 20 {
+		rep.Errorf("W-clamp found %d computed slices of package-level strings (floor 20)", n)
+	}
+}
+
+func clampIn(prog *Program, pk *packages.Package, rel string, rep *Report) int {
+	info := pk.TypesInfo
+	n := 0
+	for _, f := range pk.Syntax {
+		for _, d := range f.Decls {
+			fd, ok := d.(*ast.FuncDecl)
+			if !ok || fd.Body == nil {
+				continue
+			}
+			idx := 0
+			ast.Inspect(fd.Body, func(k ast.Node) bool {
+				var list []ast.Stmt
+				switch b := k.(type) {
+				case *ast.BlockStmt:
+					list = b.List
+				case *ast.CaseClause:
+					list = b.Body
+				default:
+					return true
+				}
+				for i, st := range list {
+					// slices directly in this statement (not in nested blocks)
+					ast.Inspect(st, func(q ast.Node) bool {
+						if _, isBlk := q.(*ast.BlockStmt); isBlk {
+							return false
+						}
+						se, ok := q.(*ast.SliceExpr)
+						if !ok || se.High == nil {
+							return true
+						}
+						so := useObj(info, se.X)
+						if so == nil || so.Parent() != pk.Types.Scope() {
+							return true
+						}
+						if b, ok := so.Type().Underlying().(*types.Basic); !ok || b.Info()&types.IsString == 0 {
+							return true
+						}
+						xo := useObj(info, se.High)
+						if xo == nil {
+							return true // constant or expression bound
+						}
+						if _, isVar := xo.(*types.Var); !isVar {
+							return true
+						}
+						n++
+						idx++
+						key := fmt.Sprintf("%s.%s:clamp#%d", rel, funcKey(fd), idx)
+						clamped := false
+						for j := i - 1; j >= 0; j-- {
+							if as, ok := list[j].(*ast.AssignStmt); ok {
+								assignsX := false
+								for _, l := range as.Lhs {
+									if useObj(info, l) == xo {
+										assignsX = true
+									}
+								}
+								if assignsX {
+									break
+								}
+							}
+							if is, ok := list[j].(*ast.IfStmt); ok && is.Else == nil && len(is.Body.List) == 1 {
+								be, ok := ast.Unparen(is.Cond).(*ast.BinaryExpr)
+								if !ok {
+									continue
+								}
+								isLenS := func(e ast.Expr) bool {
+									c, ok := ast.Unparen(e).(*ast.CallExpr)
+									return ok && isLenCall(c) && useObj(info, c.Args[0]) == so
+								}
+								condOK := (be.Op == token.LSS && isLenS(be.X) && useObj(info, be.Y) == xo) || (be.Op == token.GTR && isLenS(be.Y) && useObj(info, be.X) == xo)
+								if as, ok := is.Body.List[0].(*ast.AssignStmt); ok && condOK && len(as.Lhs) == 1 && len(as.Rhs) == 1 && useObj(info, as.Lhs[0]) == xo && isLenS(as.Rhs[0]) {
+									clamped = true
+									break
+								}
+							}
+						}
+						if !clamped {
+							// other idiom: the slice sits in the else-branch of `if len(S) < x { ... } else { ... }`
+							ast.Inspect(fd.Body, func(g ast.Node) bool {
+								is, ok := g.(*ast.IfStmt)
+								if !ok || is.Else == nil || !nodeWithin(is.Else, se) {
+									return true
+								}
+								if be, ok := ast.Unparen(is.Cond).(*ast.BinaryExpr); ok {
+									isLenS := func(e ast.Expr) bool {
+										c, ok := ast.Unparen(e).(*ast.CallExpr)
+										return ok && isLenCall(c) && useObj(info, c.Args[0]) == so
+									}
+									if (be.Op == token.LSS && isLenS(be.X) && useObj(info, be.Y) == xo) || (be.Op == token.GTR && isLenS(be.Y) && useObj(info, be.X) == xo) {
+										clamped = true
+									}
+								}
+								return true
+							})
+						}
+						if clamped {
+							rep.Discharge("W-clamp", key, prog.Pos(se.Pos()), "bound clamped to the string's length")
+						} else {
+							rep.Violate(Finding{Rule: "W-clamp", Key: fmt.Sprintf("%s.%s:unclamped:%s[%s]", rel, funcKey(fd), so.Name(), xo.Name()), Pos: prog.Pos(se.Pos()), Msg: fmt.Sprintf("%s[..:%s] is sliced with a computed bound that is not clamped to len(%s) just before: data nested deeper than the indentation string panics with slice bounds out of range", so.Name(), xo.Name(), so.Name())})
+						}
+						return true
+					})
+				}
+				return true
+			})
+		}
+	}
+	return n
 }
